@@ -1,13 +1,12 @@
 #!/bin/bash
-# matrix.sh : every seeded change and every reverted fix against its own property's check plus a sample of others
+# matrix.sh : every reverted fix and every seeded change against the check(s) of the property it breaks
 cd /verif
-declare -A own
 for m in mutants/revert-*.diff; do
   n=$(basename $m | cut -d- -f2)
-  case $n in 01) t="C01 C03";; 02) t=C03;; 03) t="C01 C10";; 04) t=C05;; 05) t=C06;; 06) t=C07;; 07) t=C09;; 08) t="C04 C06";; 09) t=C08;; 11) t=C12;; 12) t=C12;; 13) t=C15;; 14) t=C15;; 15) t=C19;; 16) t=C17;; 17) t=C18;; 18) t=C20;; 19) t=C16;; 20) t=C15;; 21) t=C14;; 22) t=C17;; 23) t=C17;; 24) t=C15;; esac
-  MUT_PAR=2 python3 tools/mutate.py $m $t C02 C11 C12 C16 C18
+  case $n in 01) t="C01 C03";; 02) t=C03;; 03) t="C01 C10";; 04) t=C05;; 05) t=C06;; 06) t=C07;; 07) t=C09;; 08) t="C04 C06";; 09) t=C08;; 11) t=C12;; 12) t=C12;; 13) t=C15;; 14) t=C15;; 15) t=C19;; 16) t=C17;; 17) t=C18;; 18) t=C20;; 19) t=C16;; 20) t=C15;; 21) t=C14;; 22) t=C17;; 23) t=C17;; 24) t=C15;; 25) t=C10;; esac
+  MUT_PAR=2 python3 tools/mutate.py $m $t
 done
 for d in seeded/*/; do
   id=$(basename $d); p=${id:0:3}
-  MUT_PAR=2 python3 tools/mutate.py $d/patch.diff $p C02 C11 C12 C16 C18
+  MUT_PAR=1 python3 tools/mutate.py $d/patch.diff $p
 done
